@@ -76,7 +76,7 @@ PROPS = {
     "C03": {
         "id": "C03",
         "title": "Element-wise array arithmetic, type promotion and value semantics",
-        "rules": ["T1", "T1c", "G2", "S1", "T2"],
+        "rules": ["T1", "T1c", "G2", "S1", "T2", "E1"],
         "clause": "the result type of every operator x operand-type pairing (112 binary pairings, compound forms, unary, "
                   "concatenation, selection) is the promoted one and type-changing compound forms do not compile; the length "
                   "guard of the compound array operators is a live throwing check dominating every element write; non-compound "
@@ -163,7 +163,7 @@ PROPS = {
     "C09": {
         "id": "C09",
         "title": "Concurrent use from several threads is race-free and result-preserving",
-        "rules": ["P1", "P2", "P3", "P4"],
+        "rules": ["P1", "P2", "P3", "P4", "M1"],
         "clause": "all structural preconditions of race freedom: no mutable static-storage state that is not thread_local; "
                   "every const operation of every transform-plan class is free of writes to storage reachable from the object; "
                   "distinct objects are distinct state - no class that is copied member-wise modifies what a shared_ptr member "
